@@ -3,3 +3,5 @@ import CattrsModel.Conv.Driver
 import CattrsModel.Props.C01
 import CattrsModel.Props.C02
 import CattrsModel.Props.C04
+import CattrsModel.Disambig.Driver
+import CattrsModel.Props.C12
